@@ -1377,3 +1377,50 @@ Proof.
     unfold pad_left in *. rewrite Hs, app_nil_r, rev_involutive. f_equal.
     cbn [app split_blanks Nat.eqb] in IH. exact IH.
 Qed.
+
+(* =================================================================================================
+   H. ABF history blocks; buffered record files
+   ================================================================================================= *)
+Lemma abf_hist_nodup : forall hf w last,
+  NoDup w -> (match last with Some l => ~ In l w | None => True end) ->
+  abf_hist hf last w = filter (fun it => (0 <? hf)%Z && (it mod hf =? 0)%Z) w.
+Proof.
+  intros hf w. induction w as [|it r IH]; intros last Hnd Hl; [reflexivity|].
+  inversion Hnd as [|? ? Hnot Hnd']; subst. cbn [abf_hist filter].
+  assert (Hne : negb (match last with Some l => (l =? it)%Z | None => false end) = true).
+  { destruct last as [l|]; [|reflexivity]. destruct (l =? it)%Z eqn:E; [|reflexivity].
+    apply Z.eqb_eq in E. exfalso. apply Hl. left. symmetry. exact E. }
+  rewrite Hne, andb_true_r.
+  destruct ((0 <? hf)%Z && (it mod hf =? 0)%Z).
+  - f_equal. apply IH; [exact Hnd'|exact Hnot].
+  - apply IH; [exact Hnd'|]. destruct last as [l|]; [|exact I]. intros Hin. apply Hl. right. exact Hin.
+Qed.
+
+(* a write repeated for the same step (run boundary) adds no second block *)
+Lemma abf_hist_repeated : forall hf it r, abf_hist hf (Some it) (it :: r) = abf_hist hf (Some it) r.
+Proof. intros. cbn [abf_hist]. rewrite Z.eqb_refl. cbn [negb]. rewrite andb_false_r. reflexivity. Qed.
+
+Lemma flush_run_invariant : forall R (evs : list (fevent R)) file buf,
+  let '(f, b) := flush_run file buf evs in f ++ b = file ++ buf ++ records_of evs.
+Proof.
+  intros R evs. induction evs as [|e evs IH]; intros file buf.
+  - cbn [flush_run records_of flat_map]. rewrite app_nil_r. reflexivity.
+  - destruct e as [r|]; cbn [flush_run].
+    + specialize (IH file (buf ++ [r])). destruct (flush_run file (buf ++ [r]) evs) as [f b]. rewrite IH.
+      unfold records_of. cbn [flat_map]. rewrite <- !app_assoc. reflexivity.
+    + specialize (IH (file ++ buf) []). destruct (flush_run (file ++ buf) [] evs) as [f b]. rewrite IH.
+      unfold records_of. cbn [flat_map app]. rewrite <- app_assoc. reflexivity.
+Qed.
+
+(* after a write the file holds every record made so far, in order *)
+Lemma flush_run_complete : forall R (evs : list (fevent R)),
+  fst (flush_run [] [] (evs ++ [FFlush])) = records_of evs.
+Proof.
+  intros R evs.
+  assert (H : forall file buf, flush_run file buf (evs ++ [FFlush]) =
+                               let '(f, b) := flush_run file buf evs in (f ++ b, [])).
+  { induction evs as [|e evs IH]; intros file buf; [reflexivity|].
+    destruct e as [r|]; cbn [app flush_run]; apply IH. }
+  rewrite H. pose proof (flush_run_invariant R evs [] []) as Hi. destruct (flush_run [] [] evs) as [f b].
+  cbn [fst]. rewrite Hi. reflexivity.
+Qed.
